@@ -30,7 +30,7 @@ sys.path.insert(0, str(VERIF / "translator"))
 # hand model.  Each module only concerns the named fragment, so a source change breaks the obligations of the
 # properties that depend on that fragment and of no other.
 EXTRA_MODULES = {
-    "C01": ["Tie.Plan", "Tie.SeekArith", "Tie.ReadLoops"],
+    "C01": ["Tie.Plan", "Tie.SeekArith", "Tie.ReadLoops", "Tie.ReadPlanLoop"],
     "C02": ["Tie.SeekArith", "Tie.ReadLoops"],
     "C03": ["Tie.Bits", "Tie.BitsValidation"],
     "C04": ["Tie.Bits", "Tie.SigprocTables", "Tie.SigprocCodec", "Tie.WriterArith"],
